@@ -242,3 +242,21 @@ def parser_impls(fs):
             ev = fs.bodies.get(items.get('eval')); me = fs.bodies.get(items.get('meta'))
             out.append((imp['self_ty'], ev, me, imp))
     return out
+
+
+def info_parser_sites(b):
+    """calls in b whose result is the help / version flag parser of Info: the mk_help_parser / mk_version_parser helpers, or
+    the same construction written in place (`self.help_arg.clone().req_flag(())`)"""
+    out = {'help': [], 'version': []}
+    for c in b.calls():
+        if c.is_(r'^info::Info::mk_help_parser$'):
+            out['help'].append(c)
+        elif c.is_(r'^info::Info::mk_version_parser$'):
+            out['version'].append(c)
+        elif c.is_(r'NamedArg::req_flag'):
+            rs = provenance(b, c.args[0], c.bb, 'term', through=DEFAULT_THROUGH + [r'Clone>?::clone$'])
+            fields = {(r.path[0] if r.path else '') for r in rs if r.kind == 'param' and r.what == 'self'}
+            if rs and len(fields) == 1 and all(r.kind == 'param' for r in rs):
+                if fields == {'help_arg'}: out['help'].append(c)
+                elif fields == {'version_arg'}: out['version'].append(c)
+    return out
